@@ -41,7 +41,8 @@ ASSUMPTIONS = [
     "Explicit 'not supported' errors (DeviceError, NotImplementedError, QuantumFunctionError about rotating probabilities) count as "
     "documented rejections of a measurement; generators avoid the known unsupported combinations.",
     "expval with shots is estimated term by term over the Pauli decomposition: Hoeffding bound with the Pauli 1-norm.",
-    "Device without wires and trailing idle wires: a tableau / state on the first m <= n wires is accepted if the remaining wires are |0>.",
+    "var(Q) goes through simplify(), whose documented cutoff drops Pauli words with |coefficient| <= 1e-8: var is compared at "
+    "1e-9 + 3e-8 * (number of terms)^2.",
 ]
 BUDGET = {"quick": {"examples": 230}, "thorough": {"examples": 15000, "shards": 16}}
 SHRINK_LISTS = ("ops", "meas", "circ")
@@ -336,13 +337,10 @@ def check_tableau(T, psi, n, feats, what):
     if T.ndim != 2 or T.shape[1] % 2 != 1 or T.shape[0] != T.shape[1] - 1:
         raise Viol("tableau-shape", f"{what}: tableau shape {T.shape}", sig="tableau-shape", features=feats)
     N = T.shape[0] // 2
-    if N > n or N == 0 or not np.isin(T, [0, 1]).all():
+    # one destabilizer and one stabilizer row per wire (documented (2n, 2n+1) layout). A circuit without any wire has the empty
+    # tableau of shape (0, 1): the oracle used to report it as malformed (N == 0), although it is the documented layout for n = 0.
+    if N != n or not np.isin(T, [0, 1]).all():
         raise Viol("tableau-shape", f"{what}: tableau shape {T.shape} / non-binary entries for {n} wires", sig="tableau-shape", features=feats)
-    if N < n:
-        # the remaining wires must be untouched (|0>)
-        rest = np.asarray(psi).reshape((2**N, 2 ** (n - N)))
-        if np.abs(rest[:, 1:]).max() > 1e-9:
-            raise Viol("tableau-shape", f"{what}: tableau on {N} qubits but wires beyond are not in |0>", sig="tableau-short", features=feats)
     X, Z, R = T[:, :N], T[:, N:2 * N], T[:, 2 * N]
     for i in range(N, 2 * N):
         out = apply_pauli_row(psi, X[i], Z[i], R[i], n)
@@ -461,12 +459,6 @@ def _compare_analytic(spec, tape, res, order, feats):
                     raise
                 continue
             ref = psi
-            if got.shape != ref.shape and got.ndim == 1 and got.size < ref.size and not spec.get("dev_wires"):
-                k = int(np.log2(got.size))
-                rest = ref.reshape(2**k, -1)
-                if np.abs(rest[:, 1:]).max() > 1e-9:
-                    raise Viol("state-shape", f"{what}: state of size {got.size} but idle wires not |0>", sig="state-short", features=f2)
-                ref = rest[:, 0]
             if got.shape != ref.shape:
                 raise Viol("result-shape", f"{what}: shape {got.shape} expected {ref.shape}", sig="StateMP:shape", features=f2)
             if not sim.allclose_phase(got, ref, 1e-6):
@@ -478,6 +470,12 @@ def _compare_analytic(spec, tape, res, order, feats):
             continue
         exp = np.asarray(sim.measure(psi, mp, order))
         tol = 1e-6 if name == "DensityMatrixMP" or (name == "ProbabilityMP" and not spec["tableau"]) else 1e-9
+        if name == "VarianceMP":
+            # var(Q) is evaluated as <Q^2> - <Q>^2 on the simplified operators, and simplify() documents that Pauli words with
+            # |coefficient| <= 1e-8 are dropped (PauliSentence.simplify(tol=1e-8)): var(1e-4 * Z) on |0> is -1e-8 because the term
+            # 1e-8 * I of Q^2 is pruned. With T terms of |c| <= 1: at most T^2 words of Q^2 (error <= 1e-8 each) and T words of Q
+            # (error of <Q>^2 <= 2 T * 1e-8 each) can be affected. The old flat 1e-9 demanded more than the documented cutoff allows.
+            tol += 3e-8 * _n_terms(m["obs"]) ** 2
         if got.shape != exp.shape:
             raise Viol("result-shape", f"{what}: shape {got.shape} expected {exp.shape}", sig=pre + name + ":shape", features=f2)
         if not close(got, exp, tol):
@@ -489,6 +487,15 @@ def _compare_analytic(spec, tape, res, order, feats):
             raise Viol("result-value", f"{what}: got {np.round(got, 6).tolist() if got.size <= 16 else '...'} expected "
                                        f"{np.round(exp, 6).tolist() if exp.size <= 16 else '...'} diff={maxdiff(got, exp)}",
                        sig=pre.replace("idle-tail:", "") + name + ":value", features=f2)
+
+
+def _n_terms(o):
+    """Number of Pauli words of an expval / var observable spec (sum / lincomb operands, scalar products, single words)."""
+    if o["op"] in ("sum", "lincomb"):
+        return sum(_n_terms(t) for t in o["operands"])
+    if o["op"] == "s_prod":
+        return _n_terms(o["base"])
+    return 1
 
 
 def _idle_tail(spec, order, dev_wires):
